@@ -12,6 +12,7 @@ import (
 	"sort"
 	"strconv"
 	"strings"
+	"time"
 
 	at "github.com/DanielSvub/anytype"
 )
@@ -1760,4 +1761,141 @@ func (c *Ctx) selfStore(prop string) {
 		}
 	}
 	c.St.Eval("self-store:"+prop, true)
+}
+
+// panickingCallbacks: a callback that panics at its k-th invocation is a fault in the middle of an iteration.  The
+// library does not catch it: the panic value reaches the caller unchanged, the callback has been invoked exactly k+1
+// times (the first k+1 invocations of the undisturbed run, in order), the receiver is what it was (same elements,
+// identical nested containers), and the next call on the same container behaves as if nothing had happened (no flag,
+// lock or partly built result is left behind).  Implementation-side monitor (C14, C09).
+func (c *Ctx) panickingCallbacks(prop string) {
+	m := c.M
+	m.Case("panicking-callbacks")
+	type boom struct{ k int }
+	nl, no := at.NewList(7), at.NewObject("q", 1)
+	base := []any{1, "a", nl, 2.5, true, no, nil, "b", 2, nl}
+	show := func(vs []any) string {
+		var sb strings.Builder
+		for _, v := range vs {
+			switch x := v.(type) {
+			case at.List, at.Object:
+				fmt.Fprintf(&sb, "@%p ", x)
+			default:
+				fmt.Fprintf(&sb, "%T:%v ", v, v)
+			}
+		}
+		return sb.String()
+	}
+	type variant struct {
+		name string
+		run  func(l at.List, cb func(any))
+	}
+	variants := []variant{
+		{"ForEach", func(l at.List, cb func(any)) { l.ForEach(func(i int, x any) { cb(x) }) }},
+		{"ForEachValue", func(l at.List, cb func(any)) { l.ForEachValue(func(x any) { cb(x) }) }},
+		{"ForEachString", func(l at.List, cb func(any)) { l.ForEachString(func(x string) { cb(x) }) }},
+		{"ForEachInt", func(l at.List, cb func(any)) { l.ForEachInt(func(x int) { cb(x) }) }},
+		{"ForEachList", func(l at.List, cb func(any)) { l.ForEachList(func(x at.List) { cb(x) }) }},
+		{"ForEachObject", func(l at.List, cb func(any)) { l.ForEachObject(func(x at.Object) { cb(x) }) }},
+		{"Map", func(l at.List, cb func(any)) { l.Map(func(i int, x any) any { cb(x); return x }) }},
+		{"MapValues", func(l at.List, cb func(any)) { l.MapValues(func(x any) any { cb(x); return x }) }},
+		{"MapStrings", func(l at.List, cb func(any)) { l.MapStrings(func(x string) any { cb(x); return x }) }},
+		{"MapInts", func(l at.List, cb func(any)) { l.MapInts(func(x int) any { cb(x); return x }) }},
+		{"MapLists", func(l at.List, cb func(any)) { l.MapLists(func(x at.List) any { cb(x); return x }) }},
+		{"Filter", func(l at.List, cb func(any)) { l.Filter(func(x any) bool { cb(x); return true }) }},
+		{"FilterStrings", func(l at.List, cb func(any)) { l.FilterStrings(func(x string) bool { cb(x); return true }) }},
+		{"FilterInts", func(l at.List, cb func(any)) { l.FilterInts(func(x int) bool { cb(x); return false }) }},
+		{"FilterObjects", func(l at.List, cb func(any)) { l.FilterObjects(func(x at.Object) bool { cb(x); return true }) }},
+		{"Reduce", func(l at.List, cb func(any)) { l.Reduce(0, func(a, x any) any { cb(x); return a }) }},
+		{"ReduceStrings", func(l at.List, cb func(any)) { l.ReduceStrings("", func(a, x string) string { cb(x); return a + x }) }},
+		{"ReduceInts", func(l at.List, cb func(any)) { l.ReduceInts(0, func(a, x int) int { cb(x); return a + x }) }},
+		{"IntMin", nil}, // placeholders keep the table aligned with the documentation; nil entries are skipped
+	}
+	for _, v := range variants {
+		if v.run == nil {
+			continue
+		}
+		l := at.NewList(base...)
+		var full []any
+		v.run(l, func(x any) { full = append(full, x) })
+		for k := 0; k < len(full); k++ {
+			var seen []any
+			var got any
+			func() {
+				defer func() { got = recover() }()
+				v.run(l, func(x any) {
+					seen = append(seen, x)
+					if len(seen) == k+1 {
+						panic(boom{k})
+					}
+				})
+			}()
+			if got != any(boom{k}) {
+				m.Alarm(prop, fmt.Sprintf("panicking callback: %s with a function that panics at its invocation %d: the caller recovers %v, the function panicked with %v", v.name, k, got, boom{k}))
+			}
+			if show(seen) != show(full[:k+1]) {
+				m.Alarm(prop, fmt.Sprintf("panicking callback: %s, panic at invocation %d: the function was handed [%s], the undisturbed run hands over [%s] first", v.name, k, show(seen), show(full[:k+1])))
+			}
+			if show(l.Slice()) != show(base) {
+				m.Alarm(prop, fmt.Sprintf("panicking callback: %s, panic at invocation %d: the list is [%s] afterwards, it was [%s]", v.name, k, show(l.Slice()), show(base)))
+			}
+			var again []any
+			if !within(5*time.Second, func() { v.run(l, func(x any) { again = append(again, x) }) }) {
+				m.Alarm(prop, fmt.Sprintf("panicking callback: the call of %s after one whose function panicked at invocation %d does not return", v.name, k))
+				return
+			}
+			if show(again) != show(full) {
+				m.Alarm(prop, fmt.Sprintf("panicking callback: %s after a call whose function panicked at invocation %d hands over [%s], before it handed over [%s]", v.name, k, show(again), show(full)))
+			}
+		}
+	}
+	// objects: the order of the fields is not fixed, so only counts, the panic value, the receiver and the next call
+	o := at.NewObject("a", 1, "b", "s", "c", nl, "d", no, "e", nil, "f", 2)
+	before := o.Dict()
+	ovariants := []struct {
+		name string
+		run  func(cb func(string))
+	}{
+		{"ForEach", func(cb func(string)) { o.ForEach(func(k string, x any) { cb(k) }) }},
+		{"ForEachValue", func(cb func(string)) { o.ForEachValue(func(x any) { cb("") }) }},
+		{"ForEachInt", func(cb func(string)) { o.ForEachInt(func(x int) { cb("") }) }},
+		{"Map", func(cb func(string)) { o.Map(func(k string, x any) any { cb(k); return x }) }},
+		{"MapValues", func(cb func(string)) { o.MapValues(func(x any) any { cb(""); return x }) }},
+		{"MapInts", func(cb func(string)) { o.MapInts(func(x int) any { cb(""); return x }) }},
+	}
+	for _, v := range ovariants {
+		total := 0
+		v.run(func(string) { total++ })
+		for k := 0; k < total; k++ {
+			n := 0
+			var got any
+			func() {
+				defer func() { got = recover() }()
+				v.run(func(string) {
+					n++
+					if n == k+1 {
+						panic(boom{k})
+					}
+				})
+			}()
+			if got != any(boom{k}) || n != k+1 {
+				m.Alarm(prop, fmt.Sprintf("panicking callback: object %s with a function that panics at its invocation %d: recovered %v after %d invocations", v.name, k, got, n))
+			}
+			after := o.Dict()
+			same := len(after) == len(before)
+			for key, val := range before {
+				if after[key] != val {
+					same = false
+				}
+			}
+			if !same {
+				m.Alarm(prop, fmt.Sprintf("panicking callback: object %s, panic at invocation %d: the object is %v afterwards, it was %v", v.name, k, after, before))
+			}
+			again := 0
+			if !within(5*time.Second, func() { v.run(func(string) { again++ }) }) || again != total {
+				m.Alarm(prop, fmt.Sprintf("panicking callback: object %s after a call whose function panicked: %d invocations, before %d", v.name, again, total))
+			}
+		}
+	}
+	c.St.Eval("panicking-callbacks:"+prop, true)
 }
